@@ -22,6 +22,11 @@ func (c *Compiled) CodeObject() *insts.KernelCodeObject {
 		// user SGPRs = 2 (kernarg pointer); work-group id x,y,z; work-item id x,y,z
 		ComputePgmRsrc2: 2<<1 | 1<<7 | 1<<8 | 1<<9 | 2<<11,
 	}
+	for d := 0; d < 3; d++ {
+		if c.NoWGID[d] {
+			meta.ComputePgmRsrc2 &^= 1 << uint(7+d)
+		}
+	}
 	version := insts.CodeObjectV3
 	if c.PackedIDs {
 		version = insts.CodeObjectV5
